@@ -1,6 +1,7 @@
 package main
 
 import (
+	"strconv"
 	"fmt"
 	"go/token"
 	"go/types"
@@ -322,6 +323,111 @@ func ruleC06SubRaw(c *Checker) {
 		})
 	}
 	c.check(slashSite != "", R, p.FuncName(split), "package text ending in a slash", p.Pos(split.Pos()), "the slash next to the separator is looked at in "+slashSite, "a package address ending in \"/\" (git::https://example.com/repo/) followed by \"//\" and a sub-path reads back cut one slash early — package without its slash, sub-path with a leading one, which is refused: neither the splitter, nor the printer, nor the URL canonicaliser looks at a single slash next to the separator")
+	// structure of the splitter itself (the printer was checked against it above)
+	{
+		sname := p.FuncName(split)
+		searches := map[string][]*ssa.Call{}
+		for _, ci := range callsIn(split) {
+			if cl, ok := ci.(*ssa.Call); ok {
+				if sep, first, ok := searchCall(cl); ok {
+					searches[sep] = append(searches[sep], cl)
+					c.check(first, R, sname, "first occurrence of "+strconv.Quote(sep), p.Pos(cl.Pos()), "a first-occurrence search", "the splitter looks for the LAST "+strconv.Quote(sep)+": a later one — inside a query value, or in the sub-path — moves the cut, so an address the printer wrote (or the registry library reads) is split somewhere else than it was assembled")
+				}
+			}
+		}
+		// the sub-path separator is looked for between the scheme and the query only
+		for _, cl := range searches["//"] {
+			ss, isSlice := canon(cl.Call.Args[0]).(*ssa.Slice)
+			hiOK, loOK := false, false
+			if isSlice && ss.High != nil {
+				for w := range p.backSlice(ss.High, 0) {
+					for _, q := range searches["?"] {
+						if w == ssa.Value(q) {
+							hiOK = true
+						}
+					}
+				}
+			}
+			if isSlice && ss.Low != nil {
+				for w := range p.backSlice(ss.Low, 0) {
+					for _, q := range searches["://"] {
+						if w == ssa.Value(q) {
+							loOK = true
+						}
+					}
+				}
+			}
+			if len(searches["?"]) > 0 {
+				c.check(hiOK, R, sname, "\"//\" is looked for in front of the query", p.Pos(cl.Pos()), "the searched slice ends where \"?\" was found", "the search for the sub-path separator is not bounded by the position of \"?\": a \"//\" inside a query value (?ref=a//b, a URL in a query argument) is taken for the sub-path separator")
+			}
+			if len(searches["://"]) > 0 {
+				c.check(loOK, R, sname, "\"//\" is looked for behind the scheme", p.Pos(cl.Pos()), "the searched slice starts behind \"://\"", "the search for the sub-path separator does not start behind the scheme separator: the \"//\" of \"https://\" is taken for it")
+			}
+		}
+		// skipping the scheme separator skips exactly its length
+		for _, q := range searches["://"] {
+			if refs := q.Referrers(); refs != nil {
+				for _, r := range *refs {
+					if bo, ok := r.(*ssa.BinOp); ok && bo.Op == token.ADD {
+						k, isC := constInt(bo.Y)
+						if !isC {
+							k, isC = constInt(bo.X)
+						}
+						if isC {
+							c.check(int(k) == len("://"), R, sname, "offset behind the scheme separator", p.Pos(bo.Pos()), "index + 3", fmt.Sprintf("the search for the sub-path separator starts %d bytes behind the start of \"://\" instead of 3: with an empty host (https:///x.tgz) the scheme's own slashes are taken for the separator", k))
+						}
+					}
+				}
+			}
+		}
+		// the run of three slashes: decided by HasPrefix "/" and not-HasPrefix "//" of what follows the cut, and moves the cut by one
+		var one, two *ssa.Call
+		for _, ci := range callsIn(split) {
+			cl, ok := ci.(*ssa.Call)
+			if !ok || calleeObj(cl) == nil || objPkgPath(calleeObj(cl)) != "strings" || len(cl.Call.Args) < 2 {
+				continue
+			}
+			k, isC := constString(cl.Call.Args[1])
+			if !isC {
+				continue
+			}
+			switch {
+			case k == "/" && calleeObj(cl).Name() == "HasPrefix":
+				one = cl
+			case k == "//" && calleeObj(cl).Name() == "HasPrefix":
+				two = cl
+			case k == "/" || (k == "//" && calleeObj(cl).Name() != "Index" && calleeObj(cl).Name() != "Cut"):
+				c.fail(R, sname, "three-slash run: tests", p.Pos(cl.Pos()), "the slash next to the separator is examined with strings."+calleeObj(cl).Name()+", not with a prefix test of what follows the cut")
+			}
+		}
+		if one != nil {
+			okRun, why := true, ""
+			oneT, _ := boolEdges(split, one)
+			var twoF []Edge
+			if two != nil && canon(two.Call.Args[0]) == canon(one.Call.Args[0]) {
+				_, twoF = boolEdges(split, two)
+			}
+			var inc *ssa.BinOp
+			eachInstr(split, func(in ssa.Instruction) {
+				bo, ok := in.(*ssa.BinOp)
+				if !ok || bo.Op != token.ADD {
+					return
+				}
+				if k, isC := constInt(bo.Y); isC && k == 1 && len(oneT) > 0 && guarded(bo.Block(), oneT) {
+					inc = bo
+				}
+			})
+			switch {
+			case two == nil || len(twoF) == 0:
+				okRun, why = false, "the single-slash test is not paired with a test that what follows is not \"//\" (a run of four slashes would leave \"//\" inside the package text)"
+			case inc == nil:
+				okRun, why = false, "no path guarded by the single-slash test moves the cut by one: the printed form pkg/ + // + sub still reads back as pkg + /sub"
+			case !guarded(inc.Block(), twoF):
+				okRun, why = false, "the cut is moved although what follows may be \"//\" (the not-\"//\" test does not guard it)"
+			}
+			c.check(okRun, R, sname, "three-slash run: the first slash stays with the package", p.Pos(one.Pos()), "HasPrefix \"/\" and not HasPrefix \"//\" of what follows the cut move the cut by one", why)
+		}
+	}
 
 	// sanitisers refuse the separators the splitter stops at
 	sans := p.subPathSanitisers()
